@@ -341,6 +341,15 @@ class Body:
             self._calls = cs
         return self._calls
 
+    def bounds_checks(self):
+        """[(bb, len_term, index_term, span)] for Assert(BoundsCheck) terminators (direct array/slice indexing)"""
+        out = []
+        for bl in self.blocks:
+            t = bl["term"]
+            if bl["id"] in self.reach() and t["k"] == "assert" and t["ak"] == "BoundsCheck":
+                out.append((bl["id"], self.operand_term(t["ops"][0]), self.operand_term(t["ops"][1]), t.get("sp", "")))
+        return out
+
     def fn_items(self):
         """function items used as values (passed to combinators): set of def paths"""
         out = set()
